@@ -15,7 +15,7 @@ import (
 
 func init() {
 	register("C13",
-		"KA-1: every potentially unbounded wait that the send goroutine can reach (all blocking selects in sendPacketsForever and its gbn callees) has a case on pongTicker.Ticks() that ends the loop with errKeepaliveTimeout, or is bounded by a timer - whatever the loop is doing (idle, sending, full window) pong expiry is observed. KA-2: on every ping-tick leg pong expiry is polled first, pongTicker.Reset+Resume and pingTicker.Reset happen on every path through the leg, the main loop's leg then sends a packet with IsPing set; pongTicker.Resume is called nowhere else; GetPingTime/GetPongTime map 0 (keepalive off) to MaxInt64 and start arms only the ping ticker. KA-3: in the receive loop every path from a successful Deserialize to the next iteration passes pingTicker.Reset and the pongTicker.IsActive test whose true leg pauses the pong ticker (a responding peer is never timed out). KA-4: the error returned on pong expiry ends sendPacketsForever, whose wrapper closes the connection unconditionally. Not decided: the time bound itself; the residual race between Pause and a tick that already passed the IsActive test.",
+		"KA-1: every potentially unbounded wait that the send goroutine can reach (all blocking selects in sendPacketsForever and its gbn callees) has a case on pongTicker.Ticks() that ends the loop with errKeepaliveTimeout, or is bounded by a timer - whatever the loop is doing (idle, sending, full window) pong expiry is observed. KA-2: on every ping-tick leg pong expiry is polled first, pongTicker.Reset+Resume and pingTicker.Reset happen on every path through the leg, the main loop's leg then sends a packet with IsPing set; pongTicker.Resume is called nowhere else; GetPingTime/GetPongTime map 0 (keepalive off) to MaxInt64 and start arms only the ping ticker. KA-3: in the receive loop every path from a successful Deserialize to the next iteration passes pingTicker.Reset and the pongTicker.IsActive test whose true leg pauses the pong ticker (a responding peer is never timed out). KA-5: both mailbox constructors enable gbn.WithKeepalivePing with positive durations, hand the stored options to the gbn constructor, and Refresh carries them over. KA-4: the error returned on pong expiry ends sendPacketsForever, whose wrapper closes the connection unconditionally. Not decided: the time bound itself; the residual race between Pause and a tick that already passed the IsActive test.",
 		[]string{"IntervalAwareForceTicker delivers ticks on Ticks() only while active (Resume/Pause)"},
 		runC13)
 }
@@ -456,4 +456,60 @@ func ruleKA(c *Checker) {
 		"the keepalive timeout ends the send loop but nothing closes the connection")
 	c.floor("KA-4", 1)
 	_ = nWaits
+
+	// ---- KA-5: the mailbox enables keepalive on both ends and keeps it across refreshes ----
+	withKA := w.Func("gbn.WithKeepalivePing")
+	fOpts := map[string]*types.Var{"ClientConn": w.Field("mailbox.ClientConn.gbnOptions"), "ServerConn": w.Field("mailbox.ServerConn.gbnOptions")}
+	if withKA == nil || fOpts["ClientConn"] == nil || fOpts["ServerConn"] == nil {
+		c.anchorFail("gbn.WithKeepalivePing / mailbox gbnOptions")
+		return
+	}
+	for _, side := range []struct{ ctor, refresh, typ, gbnCtor string }{
+		{"NewClientConn", "RefreshClientConn", "ClientConn", "NewClientConn"},
+		{"NewServerConn", "RefreshServerConn", "ServerConn", "NewServerConn"},
+	} {
+		fn := w.Func("mailbox." + side.ctor)
+		rf := w.Func("mailbox." + side.refresh)
+		if fn == nil || rf == nil {
+			c.anchorFail("mailbox." + side.ctor)
+			continue
+		}
+		rg := newRanger(w)
+		okk, detail := false, "WithKeepalivePing is not among the gbn options"
+		for _, ci := range findCalls(fn, func(ci ssa.CallInstruction) bool { return ci.Common().StaticCallee() == withKA }) {
+			ping := rg.At(ci.Common().Args[0], ci.Block())
+			pong := rg.At(ci.Common().Args[1], ci.Block())
+			if !ping.empty && ping.lo > 0 && !pong.empty && pong.lo > 0 {
+				okk = true
+				detail = fmt.Sprintf("ping %s, pong %s", ping, pong)
+			} else {
+				detail = fmt.Sprintf("ping %s / pong %s may be zero (keepalive off)", ping, pong)
+			}
+		}
+		c.decide(okk, "KA-5", "mailbox."+side.ctor+"|keepalive enabled", fn.Pos(), "gbn.WithKeepalivePing with positive durations: "+detail,
+			"the mailbox connection does not enable the gbn keepalive: a peer that vanishes is never detected ("+detail+")")
+		// the options stored in the conn are the ones handed to the gbn constructor, in the constructor and in Refresh
+		for _, f2 := range []*ssa.Function{fn, rf} {
+			okOpt := false
+			for _, ci := range findCalls(f2, func(ci ssa.CallInstruction) bool {
+				sc := ci.Common().StaticCallee()
+				return sc != nil && sc.Name() == side.gbnCtor && w.pkgShort(sc) == targetGBN
+			}) {
+				args := ci.Common().Args
+				if len(args) > 0 && isLoadOfField(args[len(args)-1], fOpts[side.typ]) {
+					okOpt = true
+				}
+			}
+			c.decide(okOpt, "KA-5", "mailbox."+f2.Name()+"|gbn options passed on", f2.Pos(), "the gbn connection is created with the stored gbnOptions", "the gbn connection is created without the stored options (keepalive, timeouts)")
+		}
+		// Refresh copies the options
+		okCopy := false
+		for _, st := range w.Stores(fOpts[side.typ]) {
+			if st.Parent() == rf && isLoadOfField(st.Val, fOpts[side.typ]) {
+				okCopy = true
+			}
+		}
+		c.decide(okCopy, "KA-5", "mailbox."+side.refresh+"|options carried over", rf.Pos(), "gbnOptions are copied from the previous connection", "a refreshed connection loses the gbn options (keepalive off after the first reconnect)")
+	}
+	c.floor("KA-5", 8)
 }
